@@ -198,6 +198,9 @@ func (mgr *GCMgr) gc(bkt *Bucket, startChunkID, endChunkID int, merge bool) {
 	gc := &bkt.GCHistory[len(bkt.GCHistory)-1]
 	// add gc to mgr's stat map
 	mgr.mu.Lock()
+	if claim, ok := mgr.stat[bkt]; ok && claim.CancelFlag {
+		gc.CancelFlag = true // cancelled between the request and the start of the pass
+	}
 	mgr.stat[bkt] = gc
 	mgr.mu.Unlock()
 	gc.Running = true
